@@ -51,6 +51,8 @@ TIE_SEARCH = {
     "vec_iter_next_tie": ("TieIndex", "ObjVecIter::next"),
     "tuple_iter_next_same": ("TieIndex", "ObjTupleIter::next"),
     "resolve_local_tie": ("TieResolver", "Compiler::resolve_local"), "resolve_local_innermost": ("TieResolver", "Compiler::resolve_local"),
+    "inline_arms_match_the_bytecode_table": ("TieVm", "inline-arms"), "vm_arm_constant_effect": ("TieVm", "inline-arms"), "vm_arm_pop_effect": ("TieVm", "inline-arms"),
+    "vm_arm_copy_top_effect": ("TieVm", "inline-arms"), "vm_arm_nil_effect": ("TieVm", "inline-arms"),
     "declare_variable_spec": ("TieResolver", "Parser::declare_variable"), "redeclaration_is_reported": ("TieResolver", "Parser::declare_variable"),
     "shadowing_is_allowed": ("TieResolver", "Parser::declare_variable"), "clash_test_matches_reference": ("TieResolver", "Parser::declare_variable"),
     "add_local_spec": ("TieResolver", "Compiler::add_local"), "declared_then_initialised_is_found": ("TieResolver", "Compiler::add_local"),
